@@ -64,7 +64,7 @@ def required(tier):
     b.update({'pols:1': 50, 'pols:2': 50, 'request==maxdelay+1:later': 20, 'request==maxdelay+1:first': 20,
               'delays:first-antenna-not-max': 20, 'delays:not-palindromic': 20, 'maxdelay>=100': 10,
               'delays:caller-container-changed-after-construction:ndarray': 30,
-              'delays:caller-container-changed-after-construction:list': 30, 'request>2^15-samples': 20})
+              'delays:caller-container-changed-after-construction:list': 30, 'request>2^15-samples': 20, 'second-array-read-in-between': 100})
     return {'buckets': b,
             'counters': {'requests_checked': 1500, 'later_requests_with_carry': 300, 'observations_after_clock_op': 200,
                          'cache_state_checks': 200, 'samples_compared': 200000, 'y_later_requests_with_carry': 100},
@@ -291,6 +291,14 @@ def run_case(c, R):
             given[q] = int(given[q]) + 1 + ((q * 7 + c['seed']) % 5)
         R.bucket('delays:caller-container-changed-after-construction:' + type(given).__name__)
 
+    # a second, unrelated array alive in the same process and read in between (whatever the arrays keep between requests, they keep
+    # it per array)
+    decoy = None
+    if c['seed'] % 4 == 0 and na >= 1:
+        R.bucket('second-array-read-in-between')
+        decoy = _build(stg, dict(c, seed=c['seed'] + 99), {'delays': [int((x_ * 3 + 1) % 7) for x_ in range(na)]})
+        for s_ in _bg_streams(decoy, npol):
+            s_.add_noise(v_mean=0.0, v_std=2.0)
     # same-seed twin: only its streams are used, each driven stand-alone
     twin = _build(stg, c, {'delays': [0] * na})
     clk = {'T': c['t0']}
@@ -414,6 +422,9 @@ def run_case(c, R):
                     return
                 raise
             out = np.array(out)
+            if decoy is not None:
+                with common.quiet():
+                    decoy.get_samples(8 + (total_reqs % 5))
             total_reqs += 1
             if not R.check(out.shape == (na, npol, n) and bool(np.iscomplexobj(out)) == cplx, pre + 'output-shape-or-dtype', complex_expected=cplx,
                            shape=list(out.shape), want=[na, npol, n]):
